@@ -127,11 +127,11 @@ Proof.
       rewrite (F_snoc_dep oe _ Hl), (F_cons_dep os _ Hh). reflexivity.
   - clear B. intros H Hh Hl Hlen.
     assert (Q : exists n1, (if dep first then Ok (first :: rest)
-                 else do d <- find_best_start_depot nw (s_usage s) ty first; Ok (d :: first :: rest)) = Ok n1 /\
+                 else do d <- find_best_start_depot_res nw (s_usage s) ty first; Ok (d :: first :: rest)) = Ok n1 /\
                  n1 <> [] /\ (dep (hd d0 n1) = true -> F n1 = F (first :: rest))).
     { destruct (dep first) eqn:Df.
       - eexists; split; [reflexivity|]. split; [discriminate|]. reflexivity.
-      - destruct (find_best_start_depot nw (s_usage s) ty first) as [d| | |]; cbn [bind] in H; try discriminate H.
+      - destruct (find_best_start_depot_res nw (s_usage s) ty first) as [d| | |]; cbn [bind] in H; try discriminate H.
         eexists; split; [reflexivity|]. split; [discriminate|]. cbn [hd]. intros Dd. apply F_cons_dep. exact Dd. }
     destruct Q as (n1 & Q1 & Q2 & Q3). rewrite Q1 in H. cbn [bind] in H.
     destruct (dep (last (first :: rest) first)) eqn:Dl.
